@@ -9,13 +9,14 @@ import ArvVerif.Model.C18
 namespace ArvVerif.Tie.C18
 open ArvVerif.Facts.C18
 
-/-- rewriteManifest: the token regexp (Model: `locPrefix`, space-delimited tokens after the first)
+/-- rewriteManifest: the token regexp (Model: `locPrefix`, `linePart` of the space-delimited tokens
+after the first; `[^ \\n]` since fix d80c6cd)
 and the literal pieces of the replacement (Model: `replaceSig`). -/
 theorem tie_rewriteManifest_literals :
-    rewriteManifestStrings = [" [0-9a-f]{32}\\+[^ ]*", "+A", "+R", "-"] := rfl
+    rewriteManifestStrings = [" [0-9a-f]{32}\\+[^ \\n]*", "+A", "+R", "-"] := rfl
 
 theorem tie_rewriteManifest_calls : rewriteManifestCalls =
-    ["regexp.MustCompile(` [0-9a-f]{32}\\+[^ ]*`).ReplaceAllStringFunc", "regexp.MustCompile", "strings.Replace"] := rfl
+    ["regexp.MustCompile(` [0-9a-f]{32}\\+[^ \\n]*`).ReplaceAllStringFunc", "regexp.MustCompile", "strings.Replace"] := rfl
 
 /-- the model's replacement of one `+A` is built from exactly these literals -/
 theorem tie_replacement (id : List Char) :
